@@ -82,7 +82,7 @@ class Grammar:
             has_nt = any(isinstance(p, N) and p.name in self.depth_nts for p in a.parts)
             if has_nt and depth <= 0:
                 continue
-            tag0 = (a.tag,) if a.weight else ()
+            tag0 = (a.tag,) if (a.weight or a.tag.endswith("!")) else ()   # free alternatives are untagged unless marked with "!"
             partials = [(a.weight, "", tag0)]
             for p in a.parts:
                 if isinstance(p, str):
